@@ -61,6 +61,8 @@ def _cid_rows(spec):
         rows.append(["d", "encoding", "utf-8"])
         rows.append(["f", "id", "", "", "", "Integer", "0%s9" % sep])
         rows.append(["f", "name", "", "", "1%s2" % sep, "Text", ""])
+    if spec.get("allowed"):
+        rows.insert(1, ["d", "allowed characters", "32%s126" % sep])
     for check in spec["checks"]:
         rows.append(["c"] + list(check))
     return rows
@@ -79,6 +81,9 @@ def generate(seed, tier):
         checks.reverse()
     spec = {"format": fmt, "header": swarm.choice([0, 0, 1]), "sep": swarm.choice(SEPS), "checks": checks,
             "line_delimiter": swarm.choice(["lf", "lf", "any", "any", "crlf"])}
+    # with 'allowed characters' declared a value may be rejected for a character; data sets share such characters
+    spec["allowed"] = swarm.random() < 0.3
+    letters = ["a", "b", "c", "\u00fc"] if swarm.random() < 0.4 else ["a", "b", "c"]
     datasets = {}
     for name in "ABC"[: swarm.randint(1, 3)]:
         table = []
@@ -86,7 +91,7 @@ def generate(seed, tier):
             ident = rng.choice(["1", "1", "2", "3"])
             if rng.random() < 0.08:
                 ident = "x"
-            table.append([ident, rng.choice(["a", "b", "c"])])
+            table.append([ident, rng.choice(letters)])
         datasets[name] = table
     names = sorted(datasets)
     max_ops = 4 if tier == "quick" else 8
@@ -383,6 +388,8 @@ def candidates(scenario):
         yield lib.with_value(scenario, ["cid", "sep"], ":")
     if scenario["cid"].get("line_delimiter", "lf") != "lf":
         yield lib.with_value(scenario, ["cid", "line_delimiter"], "lf")
+    if scenario["cid"].get("allowed"):
+        yield lib.with_value(scenario, ["cid", "allowed"], False)
     if scenario["cid"]["format"] != "delimited":
         yield lib.with_value(scenario, ["cid", "format"], "delimited")
     for index, op in enumerate(scenario["ops"]):
